@@ -22,11 +22,18 @@ pub struct FcPackage {
   pub files: Vec<(String, String)>,
   /// (export name, "./path")
   pub exports: Vec<(String, String)>,
+  /// a local workspace member (file: URLs, WorkspaceFastCheckOption::Enabled)
+  /// instead of a package published to the registry
+  pub workspace: bool,
 }
 
 impl FcPackage {
   pub fn url(&self, path: &str) -> String {
-    format!("https://jsr.io/{}/{}{}", self.name, self.version, path)
+    if self.workspace {
+      format!("file:///ws/{}{}", self.name.trim_start_matches('@').replace('/', "__"), path)
+    } else {
+      format!("https://jsr.io/{}/{}{}", self.name, self.version, path)
+    }
   }
 }
 
@@ -80,14 +87,30 @@ pub fn fast_check_rooted(pkgs: &[FcPackage], n_root_pkgs: usize, cache: Option<&
   let sched = Sched::new(SchedMode::Immediate);
   let loader = ScriptedLoader::new(sched);
   let mut root = String::new();
-  for p in pkgs.iter().take(n_root_pkgs) {
+  let mut roots = vec![url("https://x/root.ts")];
+  let mut members: Vec<deno_graph::WorkspaceMember> = vec![];
+  for p in pkgs.iter().filter(|p| p.workspace) {
+    for (path, src) in &p.files {
+      loader.add_text(&p.url(path), src);
+    }
+    for (_, e) in &p.exports {
+      roots.push(url(&p.url(e.trim_start_matches('.'))));
+    }
+    members.push(deno_graph::WorkspaceMember {
+      base: url(&p.url("/")),
+      name: p.name.as_str().into(),
+      version: Some(deno_semver::Version::parse_standard(&p.version).unwrap()),
+      exports: p.exports.iter().cloned().collect(),
+    });
+  }
+  for p in pkgs.iter().take(n_root_pkgs).filter(|p| !p.workspace) {
     for (name, _) in &p.exports {
       let sub = if name == "." { "".to_string() } else { format!("/{}", name.trim_start_matches("./")) };
       root.push_str(&format!("import \"jsr:{}@{}{sub}\";\n", p.name, p.version));
     }
   }
   loader.add_text("https://x/root.ts", &root);
-  for p in pkgs {
+  for p in pkgs.iter().filter(|p| !p.workspace) {
     let mut v = RegVersion::new(&p.version, &[]);
     v.files = p.files.iter().map(|(a, b)| (a.clone(), b.as_bytes().to_vec())).collect();
     v.exports = serde_json::Value::Object(p.exports.iter().map(|(k, v)| (k.clone(), json!(v))).collect());
@@ -102,7 +125,7 @@ pub fn fast_check_rooted(pkgs: &[FcPackage], n_root_pkgs: usize, cache: Option<&
   let mut graph = ModuleGraph::new(GraphKind::All);
   build_graph(
     &mut graph,
-    vec![url("https://x/root.ts")],
+    roots,
     &loader,
     BuildCfg {
       module_analyzer: Some(&analyzer),
@@ -118,7 +141,11 @@ pub fn fast_check_rooted(pkgs: &[FcPackage], n_root_pkgs: usize, cache: Option<&
     jsr_url_provider: Default::default(),
     es_parser: Some(&analyzer),
     resolver: None,
-    workspace_fast_check: deno_graph::WorkspaceFastCheckOption::Disabled,
+    workspace_fast_check: if members.is_empty() {
+      deno_graph::WorkspaceFastCheckOption::Disabled
+    } else {
+      deno_graph::WorkspaceFastCheckOption::Enabled(&members)
+    },
   });
   let mut modules = BTreeMap::new();
   for p in pkgs {
